@@ -9,6 +9,9 @@ from harness.lib.core import VERIF, Ctx, Rng, lean_lock, run_driver, shrink_ops
 from harness.extract import acl as x_acl
 from harness.rigs import acl as rig
 from harness.rigs import acl_state as rig_s
+from harness.rigs import acl_parse as rig_p
+from harness.rigs import acl_episode as rig_e
+from harness.extract import acl_parse as x_parse
 
 MANIFEST = {
     "text": "Lean 4 proof, for every rule list, packet/frame and sequence of the operations the code offers (constructor, add_rule, "
@@ -29,7 +32,8 @@ MANIFEST = {
     "technique": "Lean 4 theorems over an executable ACL model; model tied by source translation, regenerated tables and a differential rig",
     "design_ref": "5/C07",
 }
-MODULES = ["PrimaiteModel.Props.C07", "PrimaiteModel.Props.C07State", "PrimaiteModel.Props.C07Wildcard", "PrimaiteModel.Props.C07Frame"]
+MODULES = ["PrimaiteModel.Props.C07", "PrimaiteModel.Props.C07State", "PrimaiteModel.Props.C07Wildcard", "PrimaiteModel.Props.C07Frame",
+           "PrimaiteModel.Props.C07Parse"]
 EXE = "drv_c07"
 
 
@@ -48,6 +52,12 @@ def _impl(case: dict) -> Tuple[List[str], List[str], List[str]]:
     if fam == "wf":
         impl, lines = rig_s.run_wf()
         return ["ok"] + impl, ["reset"] + lines, []
+    if fam == "parse":
+        impl, lines = rig_p.run_impl(case)
+        return impl, lines, []
+    if fam == "episode":
+        impl, lines = rig_e.run(case)
+        return impl, lines, []
     raise ValueError(fam)
 
 
@@ -84,6 +94,21 @@ def _sig(case: dict, lines: List[str], i: int, complaints: List[str]) -> dict:
             pos = int(lines[i].split()[1])
             sig["pos_class"] = "in-range" if 0 <= pos < 24 else ("24" if pos == 24 else "out-of-range")
         return sig
+    if fam == "parse":
+        w = lines[i].split() if 0 <= i < len(lines) else ["?"] * 5
+        return {"kind": "model-vs-impl", "family": fam, "surface": case["surface"], "field": case["field"], "value_kind": w[3] if len(w) > 3 else "?"}
+    if fam == "episode":
+        # which lifecycle events / resets lie between the start and the first disagreement
+        upto, events = 0, []
+        for op in case["ops"]:
+            if upto > i:
+                break
+            upto += {"reset": 1 + len(rig_e._build_lines(case)), "dumpall": 1, "life": 0, "add": 2, "remove": 2, "check": 2}[op["op"]]
+            if op["op"] == "reset" and "env.reset" not in events:
+                events.append("env.reset")
+            if op["op"] == "life" and op["what"] not in events:
+                events.append(op["what"])
+        return {"kind": "model-vs-impl", "family": fam, "op": d["op"], "host": case["kind"], "after": sorted(events)}
     sig = {"kind": "model-vs-impl", "family": fam, "op": d["op"], "host": case.get("host") or case.get("kind")}
     if d["list"]:
         sig["list"] = d["list"]
@@ -125,6 +150,7 @@ def run(ctx: Ctx):
         ctx.extract("Acl", x_acl.emit)
         ctx.extract("AclMatch", x_acl.emit_match)
         ctx.extract("AclState", x_acl.emit_state)
+        ctx.extract("AclParse", x_parse.emit)
         proved = ctx.prove(MODULES, exes=[EXE], clean=False, leanchecker=ctx.thorough)
     # search stage: a broken extractor / C07_gen_* obligation says the source changed shape; the families aimed at the classes of
     # change seen so far (near-duplicate overwrites, reassigned defaults) are then run at three times the volume
@@ -153,6 +179,13 @@ def run(ctx: Ctx):
         cases.append((f"neardup:{k}", rig_s.gen_neardup_case(k, rng_n)))
     for k in range(boost * ctx.scale(72, 720)):
         cases.append((f"neardup-dev:{k}", rig_s.gen_dev_neardup_case(k, rng_n)))
+    # value layer: enumerated (every name of both tables, boundary numbers, sentinels, junk) x 7 surfaces x 3 fields
+    for c in rig_p.gen_cases(x_parse.port_names(), x_parse.proto_names()):
+        cases.append((f"parse:{c['surface']}:{c['field']}", c))
+    # lifecycle: the configured list is the enforced list in episodes 0, 1, 2 and across power cycles / resets / hooks
+    rng_e = ctx.rng.fork("acl-episode")
+    for k in range(boost * ctx.scale(45, 600)):
+        cases.append((f"episode:{k}", rig_e.gen_case(k, rng_e)))
     rng_d = ctx.rng.fork("acl-dev")
     for k in range(ctx.scale(150, 3000)):
         cases.append((f"dev:{k}", rig_s.gen_dev_case(rng_d, max_ops=ctx.scale(14, 24))))
@@ -179,6 +212,19 @@ def run(ctx: Ctx):
         deciders = [m.split()[1] for m, q in zip(model, lines) if q.startswith(("check", "frame")) and len(m.split()) == 2]
         nontrivial = (any(d not in ("implicit", "exempt") for d in deciders) or "raised" in model or "index-error" in model
                       or any(q.startswith("setimp") for q in lines))
+        if fam == "parse":
+            for q, m in zip(lines[1:], model[1:]):
+                ctx.count(f"parse:{case['surface']}:" + ("refused" if m == "raised" else "unspecified" if m == "-" else "specified"))
+        if fam == "episode":
+            for op in case["ops"]:
+                if op["op"] == "reset":
+                    ctx.count("episode: env.reset() then the configured list compared")
+                elif op["op"] == "life":
+                    ctx.count("episode: lifecycle event " + op["what"])
+            for lst, items in case["preload"].items():
+                for it in items:
+                    if it["pos"] in (22, 23):
+                        ctx.count(f"episode: scenario rule at position {it['pos']} ({case['kind']})")
         canon = {k: v for k, v in case.items() if not k.startswith("_")}
         ctx.case(canon, nontrivial)
         if fam == "list":
@@ -222,7 +268,7 @@ def run(ctx: Ctx):
                     ctx.count("dev:" + k, v)
         if impl == model and not complaints:
             agree += 1
-            if name.startswith(("gen:", "obj:", "dev:", "neardup:")):
+            if name.startswith(("gen:", "obj:", "dev:", "neardup:", "episode:")):
                 ctx.sample({"case": name, "family": fam, "lines": lines[:10], "answers": model[:10]}, cap=6)
             continue
         # disagreement on a property observable: the model is proved to meet C07, so the trace is a failing input. Shrink it
